@@ -1831,8 +1831,15 @@ func (mvcc *MVCCLevelDB) RawBatchGet(cf string, keys [][]byte) [][]byte {
 	values := make([][]byte, 0, len(keys))
 	for _, key := range keys {
 		value, err := db.Get(key, nil)
-		if err != leveldb.ErrNotFound {
-			tikverr.Log(err)
+		if err == leveldb.ErrNotFound {
+			// leveldb may return an empty non-nil slice together with ErrNotFound (deleted key);
+			// nil is the "not found" marker, an existing empty value is a non-nil empty slice.
+			values = append(values, nil)
+			continue
+		}
+		tikverr.Log(err)
+		if value == nil {
+			value = []byte{}
 		}
 		values = append(values, value)
 	}
